@@ -206,6 +206,59 @@ def hist_record(vc, rid, ops, exp):
     return rec
 
 
+def attr_data(fam, n, seed):
+    """own-family sample for the fit step of an attribute history (numpy / scipy directly)"""
+    from .c11 import own_data
+    return own_data(fam, n, np.random.default_rng([seed, 31, sum(map(ord, fam))]))
+
+
+def attrhist_record(vc, rid, case, seed=0):
+    """One history of ParamRoutingAttr on one real object: E = evaluate pdf / cdf / icdf / seeded
+    draw_sample WITHOUT explicit parameters, A<k> = assign the attribute of the k-th parameter
+    directly, F = fit.  After every E the results must be, bit for bit, those of a fresh instance
+    constructed with the CURRENT parameter values."""
+    fam, steps = case["fam"], list(case["steps"])
+    names = D.NAMES[fam]
+    rec = dict(id=rid, kind="attrhist", fam=fam, steps=steps, ok=True, nev=0, exc="", bad="")
+    cur = dict(D.STORED[fam])
+    with warnings.catch_warnings(), np.errstate(all="ignore"):
+        warnings.simplefilter("ignore")
+        try:
+            obj = D.build(vc, fam, cur)
+            nass = 0
+            for si, st in enumerate(steps):
+                if st == "F":
+                    obj.fit(attr_data(fam, 200, seed + si))
+                    cur = {n: v for n, v in obj.parameters.items()}
+                    continue
+                if st != "E":
+                    nass += 1
+                    n = names[int(st[1]) - 1]
+                    v = float(f"{float(cur[n]) * (1.07 + 0.05 * nass):.9g}")
+                    setattr(obj, n, v)
+                    cur[n] = v
+                    continue
+                fresh = D.build(vc, fam, cur)
+                if dict(obj.parameters) != dict(fresh.parameters) and not rec["bad"]:
+                    rec["ok"] = False
+                    rec["bad"] = f"step {si + 1}: parameters {dict(obj.parameters)} != {cur}"
+                for m in ("cdf", "pdf", "icdf", "draw_sample"):
+                    rec["nev"] += 1
+                    arg = 4 if m == "draw_sample" else (HIST_P if m == "icdf" else HIST_X)
+                    kw = dict(random_state=77 + seed) if m == "draw_sample" else {}
+                    if not D.compare(getattr(obj, m)(arg, **kw), getattr(fresh, m)(arg, **kw))[0]:
+                        rec["ok"] = False
+                        rec["bad"] = rec["bad"] or f"step {si + 1}: {m} differs from {fam}({cur})"
+        except Exception as e:  # noqa
+            rec["exc"] = f"{type(e).__name__}: {e}"[:160]
+    return rec
+
+
+def attrhist_key(c):
+    return f"attribute history {c['fam']} " + "-".join(
+        st if st in "EF" else f"{D.NAMES[c['fam']][int(st[1]) - 1]}=" for st in c["steps"])
+
+
 def hist_key(ops):
     return "history " + " ".join(f"new({o[1]})" if o[0] == "new" else f"eval(#{o[1]},{o[2]})" for o in ops)
 
@@ -553,7 +606,7 @@ def law_cases(ctx, classes):
 # ---------------------------------------------------------------------------------------
 
 
-def judge(ctx, vc, ocases, lcases, summary=True, hists=(), icases=()):
+def judge(ctx, vc, ocases, lcases, summary=True, hists=(), icases=(), ahists=()):
     raw = []
     recs = [override_record(vc, i + 1, c, ctx.seed, raw) for i, c in enumerate(ocases)]
     if ocases:
@@ -568,9 +621,11 @@ def judge(ctx, vc, ocases, lcases, summary=True, hists=(), icases=()):
         hrecs = [hist_record(vc, len(recs) + len(lrecs) + i + 1, h, exp) for i, h in enumerate(hists)]
     irecs = [int_override_record(vc, len(recs) + len(lrecs) + len(hrecs) + i + 1, c, ctx.seed)
              for i, c in enumerate(icases)]
-    allrecs = recs + lrecs + hrecs + irecs
+    arecs = [attrhist_record(vc, len(recs) + len(lrecs) + len(hrecs) + len(irecs) + i + 1, c, ctx.seed)
+             for i, c in enumerate(ahists)]
+    allrecs = recs + lrecs + hrecs + irecs + arecs
     if summary:
-        allrecs.append(dict(id=len(allrecs) + 1, kind="summary", tier=ctx.tier, nhist=len(hists)))
+        allrecs.append(dict(id=len(allrecs) + 1, kind="summary", tier=ctx.tier, nhist=len(hists), attrfit=not ctx.quick))
     failing = ctx.validate("Trace_C05", "Trace_C05.cfg", allrecs, xss="256m")
     for c, r in zip(ocases, recs):
         ctx.case("override " + override_key(c), nontrivial=bool(r["effective"]) or r["outcome"] != "ok")
@@ -585,6 +640,10 @@ def judge(ctx, vc, ocases, lcases, summary=True, hists=(), icases=()):
             ctx.violation(clause, int_override_key(c),
                           f"outcome={r['outcome']} instance={r['outcomeinst']} same={r['same']} "
                           f"shapeok={r['shapeok']} rel={r['relq']}e-15", replay=dict(kind="intoverride", case=c))
+    for c, r in zip(ahists, arecs):
+        ctx.case(attrhist_key(c), nontrivial=any(st not in ("E",) for st in c["steps"]))
+        for clause in failing.get(r["id"], []):
+            ctx.violation(clause, attrhist_key(c), f"{r['bad']} exc={r['exc']!r}", replay=dict(kind="attrhist", case=c))
     for h, r in zip(hists, hrecs):
         ctx.case(hist_key(h), nontrivial=len({o[1] for o in h if o[0] == "new"}) > 1)
         for clause in failing.get(r["id"], []):
@@ -718,7 +777,9 @@ def run(ctx):
                 "explicit values (python int, numpy int64/int32, integer array; every single name and all names); history leg: all 3264 "
                 "instances are constructed first, then every case is evaluated twice at different positions of two "
                 "seeded shuffles and must equal its isolated evaluation bit for bit; plus every TLC-generated "
-                "construct/evaluate history of up to 3 ScipyDistribution instances (4 operations). formula: TLC "
+                "construct/evaluate history of up to 3 ScipyDistribution instances (4 operations), and every history of <= 4 "
+                "steps of one object of every family with parameter attributes assigned directly between keyword-less "
+                "evaluations (thorough: also fits). formula: TLC "
                 "enumerates parameter classes (shape <1/=1/>1, scale 1e-3/1/1e3, location 0/+/-) per family "
                 "(quick: orthogonal array, canonical numbers; thorough: all classes x 6 concretisations, 5 of them seeded random); each is tabulated on a grid over the "
                 "support, its boundary (down to boundary + 1e-9 inter-quartile ranges), zero and negative x, probabilities "
@@ -746,6 +807,8 @@ def run(ctx):
                     must_cover=("New", "EvalKw", "Fit"))
     ctx.model_check("ParamRoutingHist", "MC_ParamRoutingHist_mut_index.cfg",
                     expect_violation="InstancesShareNoState")
+    ctx.model_check("ParamRoutingAttr", f"MC_ParamRoutingAttr_{ctx.tier}.cfg", must_cover=("Step",))
+    ctx.model_check("ParamRoutingAttr", "MC_ParamRoutingAttr_mut.cfg", expect_violation="EvalReadsCurrentAttributes")
     ctx.model_check("DistLaws", ctx.pick("MC_DistLaws_quick.cfg", "MC_DistLaws_thorough.cfg"),
                     must_cover=("Tabulate", "Invert"))
     ctx.model_check("DistLaws", "MC_DistLaws_mut_cdf.cfg", expect_violation="MonotoneInv")
@@ -757,9 +820,11 @@ def run(ctx):
     classes = ctx.generate("DistLawsGen", f"Gen_DistLaws_{ctx.tier}.cfg")
     lcases = law_cases(ctx, classes)
     hists = ctx.generate("ParamRoutingHist", "Gen_ParamRoutingHist.cfg")
+    ahists = ctx.generate("ParamRoutingAttr", f"Gen_ParamRoutingAttr_{ctx.tier}.cfg")
     # V
-    recs, lrecs, failing = judge(ctx, vc, ocases, lcases, hists=hists, icases=icases)
+    recs, lrecs, failing = judge(ctx, vc, ocases, lcases, hists=hists, icases=icases, ahists=ahists)
     ctx.notes["integer_override_cases"] = len(icases)
+    ctx.notes["attribute_assignment_histories"] = len(ahists)
     ctx.notes["construct_evaluate_histories"] = len(hists)
     ok_o = next((r for r in recs if r["outcome"] == "ok" and r["same"] and r["id"] not in failing), None)
     good = [r for r in lrecs if r["id"] not in failing and r["dslope"] and any(r["rtxin"])]
@@ -796,5 +861,7 @@ def replay(ctx, case):
         judge(ctx, vc, [], [], summary=False, icases=[c["case"]])
     elif c["kind"] == "hist":
         judge(ctx, vc, [], [], summary=False, hists=[c["case"]])
+    elif c["kind"] == "attrhist":
+        judge(ctx, vc, [], [], summary=False, ahists=[c["case"]])
     else:
         judge(ctx, vc, [], [c["case"]], summary=False)
